@@ -108,8 +108,8 @@ func init() {
 		if tier == "thorough" {
 			maxL, maxK = 60, 64
 		}
-		calc := filepath.Join(verifDir, ".build", "calcHermesBatch")
-		h2g := filepath.Join(verifDir, ".build", "hermes2go")
+		calc := filepath.Join(buildDir(), "calcHermesBatch")
+		h2g := filepath.Join(buildDir(), "hermes2go")
 		dir, err := os.MkdirTemp(scratchBase, "c17")
 		if err != nil {
 			return res
@@ -273,7 +273,7 @@ func init() {
 	otherChecks["C17"] = func(tier string, seed uint64) int {
 		t0 := time.Now()
 		for _, b := range []string{"calcHermesBatch", "hermes2go"} {
-			if _, err := os.Stat(filepath.Join(verifDir, ".build", b)); err != nil {
+			if _, err := os.Stat(filepath.Join(buildDir(), b)); err != nil {
 				fmt.Println("INCONCLUSIVE: binary not built:", b)
 				return 2
 			}
